@@ -36,6 +36,13 @@ type Outcome struct {
 	Probes     map[string]int64
 	Poisoned   bool
 	Sample     interface{}
+	Taken      []simrt.SchedEntry // scheduling decisions actually taken (concurrent worlds)
+}
+
+// Scheduled is implemented by properties whose scenarios can carry an explicit schedule.
+type Scheduled interface {
+	WithSchedule(sc interface{}, sched []simrt.SchedEntry) interface{}
+	ScheduleOf(sc interface{}) ([]simrt.SchedEntry, bool)
 }
 
 // Prop is one property's world + oracle.
@@ -384,6 +391,7 @@ func cmdReplay(args []string) {
 	fs := flag.NewFlagSet("replay", flag.ExitOnError)
 	file := fs.String("file", "", "")
 	quiet := fs.Bool("quiet", false, "")
+	explicitOut := fs.String("explicit-out", "", "write the scenario with the schedule actually taken made explicit")
 	fs.Parse(args)
 	b, err := os.ReadFile(*file)
 	if err != nil {
@@ -401,6 +409,13 @@ func cmdReplay(args []string) {
 		os.Exit(2)
 	}
 	v, o := runReplay(p, &rp)
+	if *explicitOut != "" {
+		if sp, ok := p.(Scheduled); ok && len(o.Taken) > 0 {
+			sc, _ := p.Decode(rp.Scenario)
+			raw, _ := json.Marshal(sp.WithSchedule(sc, o.Taken))
+			os.WriteFile(*explicitOut, raw, 0o644)
+		}
+	}
 	res := map[string]interface{}{"fp": fmt.Sprintf("%016x", o.FP)}
 	if v != nil {
 		res["violation"] = v
@@ -892,6 +907,45 @@ func shrink(p Prop, rp *Replay, scratch string, budgetS int) *Replay {
 				improved = true
 				steps++
 				break
+			}
+		}
+	}
+	// schedule minimisation: make the schedule that was actually taken explicit, then ddmin it
+	if sp, ok := p.(Scheduled); ok && time.Now().Before(deadline) {
+		if _, explicit := sp.ScheduleOf(cur); !explicit {
+			raw, _ := json.Marshal(cur)
+			cand := &Replay{Property: rp.Property, Seed: rp.Seed, RunIndex: rp.RunIndex, Code: rp.Code, Scenario: raw}
+			f := filepath.Join(scratch, "explicit-in.json")
+			outF := filepath.Join(scratch, "explicit-out.json")
+			jb, _ := json.Marshal(cand)
+			os.WriteFile(f, jb, 0o644)
+			os.Remove(outF)
+			cmd := exec.Command(selfExe(), "replay", "-quiet", "-file", f, "-explicit-out", outF)
+			cmd.Env = append(os.Environ(), raceEnv(scratch, "explicit")...)
+			cmd.Run()
+			if eb, err := os.ReadFile(outF); err == nil {
+				if esc, err := p.Decode(eb); err == nil && try(esc, "ex") {
+					cur = esc
+					sched, _ := sp.ScheduleOf(cur)
+					before := len(sched)
+					improved = true
+					for improved && time.Now().Before(deadline) {
+						improved = false
+						for i, c := range p.Shrink(cur) {
+							if time.Now().After(deadline) {
+								break
+							}
+							if try(c, fmt.Sprintf("x%d", i%8)) {
+								cur = c
+								improved = true
+								steps++
+								break
+							}
+						}
+					}
+					sched, _ = sp.ScheduleOf(cur)
+					fmt.Printf("explicit schedule: %d decisions minimised to %d\n", before, len(sched))
+				}
 			}
 		}
 	}
